@@ -136,6 +136,7 @@ class FsSim:
                 self._viol('overwrite_protection', 'initialize', 'bytes of the existing file changed by a refused initialize')
             if raised is None:
                 M.header, M.records, M.dead_tail, M.appended_after_torn = hd, [], 0, False
+                self.hs = {}  # handlers opened on the file that was just replaced are stale
                 self.h = h
         else:
             if raised is not None:
@@ -186,9 +187,11 @@ class FsSim:
         _, status = os.waitpid(pid, 0)
         return os.WIFEXITED(status) and os.WEXITSTATUS(status) == 0
 
-    def op_crash_append(self, tspec, seed, k, base='size'):
+    def op_crash_append(self, tspec, seed, k, base='size', who='self'):
         """An append in a process that dies once the file offset reaches base+k (base: current size, or the end of
-        the last complete record).  k is an int, or a float fraction of the record length."""
+        the last complete record).  k is an int, or a float fraction of the record length.  who='self': the process holding
+        all handlers dies; who='other': a second writer process (holding a copy of the current handler) dies, the handlers
+        of this process stay alive and keep being used."""
         M = self.model
         if self.h is None:
             return
@@ -218,8 +221,11 @@ class FsSim:
             if M.dead_tail and new > old:
                 M.appended_after_torn = True
             M.dead_tail = max(M.dead_tail, new - (self.h.hSize + len(M.records) * reclen), 1 if new > old else 0)
-        self.h = None  # the process died: every handler is gone
-        self.log.add('fs', 'crash_append', k, base, reclen, bool(done), self._size())
+        if who == 'other':
+            self.res.probe('crash_of_second_writer_handles_survive')
+        else:
+            self.h = None  # the process died: every handler is gone
+        self.log.add('fs', 'crash_append', k, base, reclen, bool(done), self._size(), who)
 
     def op_crash_create(self, hd, k):
         h = self._new_handler(hd)
@@ -404,30 +410,39 @@ def execute_ops(sc):
     try:
         for op in sc['ops']:
             name, args = op[0], op[1:]
-            if name == 'create':
-                sim.use(args[2] if len(args) > 2 else 0)
-                sim.op_create(sc['header'] if not args or args[0] is None else args[0], allow=bool(args[1]) if len(args) > 1 else False)
-            elif name == 'append':
-                sim.use(args[2] if len(args) > 2 else 0)
-                sim.op_append(args[0], args[1])
-            elif name == 'crash_append':
-                sim.use(args[4] if len(args) > 4 else 0)
-                sim.op_crash_append(args[0], args[1], args[2], args[3] if len(args) > 3 else 'size')
-            elif name == 'crash_create':
-                sim.use(0)
-                sim.op_crash_create(sc['header'], args[0])
-            elif name == 'reopen':
-                sim.use(args[1] if len(args) > 1 else 0)
-                sim.op_reopen(args[0] if args else 'generic')
-            elif name == 'read':
-                sim.use(args[1] if len(args) > 1 else 0)
-                sim.op_read(args[0] if args else 'live')
-            elif name == 'fresh_read':
-                sim.op_fresh_read()
-            else:
-                raise ValueError(f'unknown op {name}')
+            try:
+                _one_op(sim, sc, name, args)
+            except Exception:
+                if res['violations']:
+                    break  # the history already violated the property; what the code does afterwards is not judged
+                raise
         res['ticks'] = len(sc['ops'])
         res['nontrivial'] = any(o[0] in ('crash_append', 'crash_create') for o in sc['ops']) or sum(o[0] == 'append' for o in sc['ops']) >= 1
     finally:
         sim.close()
     return res.finish(log)
+
+
+def _one_op(sim, sc, name, args):
+    if name == 'create':
+        sim.use(args[2] if len(args) > 2 else 0)
+        sim.op_create(sc['header'] if not args or args[0] is None else args[0], allow=bool(args[1]) if len(args) > 1 else False)
+    elif name == 'append':
+        sim.use(args[2] if len(args) > 2 else 0)
+        sim.op_append(args[0], args[1])
+    elif name == 'crash_append':
+        sim.use(args[4] if len(args) > 4 else 0)
+        sim.op_crash_append(args[0], args[1], args[2], args[3] if len(args) > 3 else 'size', args[5] if len(args) > 5 else 'self')
+    elif name == 'crash_create':
+        sim.use(0)
+        sim.op_crash_create(sc['header'], args[0])
+    elif name == 'reopen':
+        sim.use(args[1] if len(args) > 1 else 0)
+        sim.op_reopen(args[0] if args else 'generic')
+    elif name == 'read':
+        sim.use(args[1] if len(args) > 1 else 0)
+        sim.op_read(args[0] if args else 'live')
+    elif name == 'fresh_read':
+        sim.op_fresh_read()
+    else:
+        raise ValueError(f'unknown op {name}')
